@@ -65,6 +65,115 @@ func rich(atoms ...int64) [][2]int64 {
 	return f
 }
 
+// k3Set: directed histories around W10 (module-service call path, known finding K3, DESIGN 12.10).
+func k3Set(add func(name string, cfg int, funding [][2]int64, ops ...Op) *History) {
+	modCall := func(tx uint64, cons int64) Op { return opCall(tx, 5, []int64{126}, cons, 1000, 2, false, 0, 0) }
+	// W10b: two module-service calls, blocks apart: the second context gets its own batch 1 / skipped batch 2,
+	// the record of the empty owner (key = the bare prefix 0x19) is re-read by the prefix scan: 1, then 1+1.
+	add("W10b-module-service-two-calls", 0, append(rich(101), [2]int64{111, 1000}),
+		opDefine(5, 101),
+		modCall(1030, 111),
+		opEB(5*sec),
+		modCall(1031, 111),
+		opEB(5*sec), opEB(5*sec), opEB(5*sec))
+	// W10c: an ordinary paid request is answered first (owner 101 holds 9 after 10 % tax); the module-service
+	// call then adds up the records of ALL owners under the bare prefix: the empty owner's record is 9 + 1.
+	add("W10c-module-service-owner-prefix-sum", 0, append(rich(101), [2]int64{111, 1000}, [2]int64{112, 1000}),
+		opDefine(1, 101),
+		opDefine(5, 102),
+		opBind(1, 126, 101, base(6000), price("10"), 1),
+		opCall(1032, 1, []int64{126}, 111, 1000, 2, false, 0, 0),
+		opEB(5*sec),
+		opRespond(1032, 1, 10, 0, 126, 200, 1, true),
+		modCall(1033, 112),
+		opEB(5*sec),
+		opWithdraw(101, 0),
+		modCall(1034, 112),
+		opEB(5*sec), opEB(5*sec), opEB(5*sec))
+	// W10d: the consumer drives the one-shot module-service context: pause and kill are refused (not repeated),
+	// an update that supplies a frequency is accepted, a stranger is refused; then the skipped batch 2.
+	add("W10d-module-service-context-messages", 0, append(rich(101), [2]int64{111, 1000}),
+		opDefine(5, 101),
+		modCall(1035, 111),
+		opCtx("pause", 1035, 111),
+		opCtx("kill", 1035, 111),
+		opCtx("start", 1035, 111),
+		Op{Kind: "updctx", Tx: 1035, Who: 111, Dep: CoinsArg{Kind: "E"}, Freq: 3},
+		Op{Kind: "updctx", Tx: 1035, Who: 141, Dep: CoinsArg{Kind: "E"}, Freq: 3},
+		Op{Kind: "updctx", Tx: 1035, Who: 111, Dep: base(7), Timeout: 2, Freq: 2, Provs: []int64{126, 127}},
+		opEB(5*sec),
+		opCtx("kill", 1035, 111),
+		opEB(5*sec), opEB(5*sec), opEB(5*sec))
+	// W10e: the module's provider address is ALSO an ordinary provider of another service (owner 101): the
+	// module-service call credits 1 to provider and owner records that the escrow does not hold; the owner's
+	// withdrawal fails while the escrow is empty and succeeds out of another consumer's pending fee.
+	add("W10e-module-provider-with-owner", 0, append(rich(101), [2]int64{111, 1000}, [2]int64{112, 1000}),
+		opDefine(1, 101),
+		opDefine(5, 101),
+		opBind(1, modProvAtom, 101, base(6000), price("10"), 1),
+		modCall(1036, 111),
+		opWithdraw(101, modProvAtom),
+		opCall(1037, 1, []int64{modProvAtom}, 112, 1000, 2, false, 0, 0),
+		opEB(5*sec),
+		opWithdraw(101, modProvAtom),
+		opRespond(1037, 1, 10, 0, modProvAtom, 200, 2, true),
+		opWithdraw(101, 0),
+		opEB(5*sec), opEB(5*sec), opEB(5*sec))
+	// W10f: what the module-service branch refuses: service not defined, ValidateBasic on the fields the handler
+	// then ignores (no provider, timeout 0), empty and foreign cap, malformed input; an unfunded consumer is
+	// accepted (the charge is 0).
+	{
+		noProv := modCall(1039, 111)
+		noProv.Provs = nil
+		t0 := modCall(1040, 111)
+		t0.Timeout = 0
+		capE := modCall(1041, 111)
+		capE.Dep = CoinsArg{Kind: "E"}
+		capX := modCall(1042, 111)
+		capX.Dep = CoinsArg{Kind: "X", Raw: "9atom"}
+		badIn := modCall(1043, 111)
+		badIn.InputOK = false
+		rep := opCall(1045, 5, []int64{126, 127}, 113, 1, 3, true, 3, -1) // repeated + super in the message: ignored
+		rep.Super = true
+		add("W10f-module-service-refusals", 0, append(rich(101), [2]int64{111, 1000}),
+			modCall(1038, 111),
+			opDefine(5, 101),
+			noProv, t0, capE, capX, badIn,
+			modCall(1044, 113),
+			rep,
+			opEB(5*sec), opEB(5*sec), opEB(5*sec))
+	}
+	// W10g: two module-service calls of one transaction in one block beside a repeated ordinary context;
+	// EndBlocks until everything that is ever removed is removed.
+	{
+		second := modCall(1046, 112)
+		second.Idx = 1
+		add("W10g-module-service-interleaved", 3, append(rich(101), [2]int64{111, 1000}, [2]int64{112, 1000}),
+			opDefine(1, 101),
+			opDefine(5, 101),
+			opBind(1, 126, 101, base(6000), price("10"), 1),
+			opCall(1047, 1, []int64{126}, 111, 1000, 1, true, 2, 3),
+			modCall(1046, 112),
+			second,
+			opEB(5*sec),
+			opRespond(1047, 1, 10, 0, 126, 200, 3, true),
+			modCall(1048, 111),
+			opEB(5*sec),
+			opCtx("pause", 1047, 111),
+			opEB(5*sec),
+			opCtx("start", 1047, 111),
+			opEB(5*sec), opEB(5*sec), opEB(5*sec), opEB(5*sec))
+	}
+	// W10h: a tax rate close to 1 and a parameter change between two module-service calls: the fee is 1, the
+	// tax floor(1 * rate) = 0 under every legal rate.
+	add("W10h-module-service-tax-and-params", 2, append(rich(101), [2]int64{111, 1000}),
+		opDefine(5, 101),
+		modCall(1049, 111),
+		Op{Kind: "setparams", P: &Cfg{MaxTimeout: 1, Multiple: 1, MinDeposit: 50, Tax: "0.999999999999999999", Slash: "1", Arb: 10 * time.Second, Compl: 5 * time.Second}},
+		modCall(1050, 111),
+		opEB(5*sec), opEB(5*sec), opEB(5*sec))
+}
+
 // k5Atoms: the standard pools plus the short addresses of W11 / W13.
 func k5Atoms() *Atoms {
 	a := standardAtoms()
@@ -213,11 +322,15 @@ func corpus() []*History {
 		opEB(5*sec), opEB(5*sec), opEB(5*sec))
 
 	// W10 (K3): the module-service call path; the user bind of the reserved service is rejected (C05).
-	add("W10-K3-module-service-call", 0, append(rich(101), [2]int64{111, 1000}),
+	// The path is INSIDE the model (coq/Model/ModSvc.v, XCallMod): W10 and the directed set W10b..W10h
+	// are compared group by group like every other history (their names carry no -K3- marker); the
+	// implementation monitors keep tagging what the path breaks "K3: ".
+	add("W10-module-service-call", 0, append(rich(101), [2]int64{111, 1000}),
 		opDefine(5, 101),
 		opBind(5, 126, 101, base(6000), price("10"), 1),
 		opCall(1010, 5, []int64{126}, 111, 1000, 2, false, 0, 0),
 		opEB(5*sec), opEB(5*sec), opEB(5*sec))
+	k3Set(add)
 
 	// W11 (K4): W7 with a 4-byte provider; message prefix only.
 	add("W11-K4-short-provider-genesis-prefix", 0, append(rich(101), [2]int64{111, 1000}), w7prefix(153)...).AtomSet = "k5"
